@@ -72,6 +72,9 @@ func c11Gen(w *mon.Worker, idx int) c11Case {
 	default:
 		c.Expr, c.Source = gen.RandomBytes(r, 24), "bytes"
 	}
+	if r.IntN(5) == 0 && c.Source != "bytes" {
+		c.Expr, c.Source = gen.Respace(r, c.Expr), c.Source+"+respaced"
+	}
 	// yaml dominates (it reaches the most operator code); every other format gets a fixed share
 	if r.IntN(2) == 0 {
 		c.In = "yaml"
